@@ -1239,7 +1239,9 @@ func (s *sharedEntryAttributes) validateMandatoryWithKeys(ctx context.Context, l
 			var err error
 			// The paths index reflects the intended store before the transaction. If the child is part of the
 			// tree, its fate is decided there (it is being deleted), only otherwise the index is consulted.
-			if !existsInTree {
+			// A replace intent replaces the whole configuration of the device: what the intents hold in the
+			// intended store is not part of the result, so it cannot satisfy a mandatory statement.
+			if !existsInTree && s.treeContext.GetActualOwner() != ReplaceIntentName {
 				exists, err = s.treeContext.cacheClient.IntendedPathExists(ctx, append(s.Path(), attribute))
 			}
 			owner := "unknown"
